@@ -1,6 +1,7 @@
 package rules
 
 import (
+	"go/constant"
 	"go/types"
 	"strings"
 
@@ -173,3 +174,32 @@ func knowsGe(p *core.Path, n int, c int64, pred func(x *core.Term) bool) bool {
 }
 
 func is(x *core.Term) func(*core.Term) bool { return func(y *core.Term) bool { return y == x } }
+
+// evalBoolResult evaluates a single-parameter boolean function's path for an
+// integer argument: (result, true) if the path's literals hold for that
+// argument and the result is evaluable; (_, false) if the path is not taken.
+func evalBoolResult(p *core.Path, param *ssa.Parameter, arg int64) (bool, bool) {
+	leaf := func(t *core.Term) (constant.Value, bool) {
+		if t.Kind == core.KParam && t.Ref == param {
+			return constant.MakeInt64(arg), true
+		}
+		return nil, false
+	}
+	for _, l := range p.Lits {
+		v, ok := p.X.Eval(l.T, leaf)
+		if !ok {
+			return false, false
+		}
+		if constant.BoolVal(v) != l.Pos {
+			return false, false
+		}
+	}
+	if len(p.Results) != 1 {
+		return false, false
+	}
+	v, ok := p.X.Eval(p.Results[0], leaf)
+	if !ok {
+		return false, false
+	}
+	return constant.BoolVal(v), true
+}
